@@ -7,6 +7,7 @@ package main
 
 import (
 	"bytes"
+	"context"
 	"encoding/hex"
 	"encoding/json"
 	"flag"
@@ -20,6 +21,7 @@ import (
 	"path/filepath"
 	"regexp"
 	"strings"
+	"syscall"
 	"time"
 )
 
@@ -167,7 +169,7 @@ func delayedLoggerOverlay(tmp string) (string, error) {
 }
 
 func runC16(res *result) error {
-	res.Rule = "the real rtcmlogger binary built from /repo: stdin fed in random chunks (empty, shorter and longer than the 8096-byte block, binary; also long runs of one byte and a constant message written again and again, one per write; also standard input as a regular file of 64 KiB to 1 MiB), stdout and the day's record file compared with the " +
+	res.Rule = "the real rtcmlogger binary built from /repo: stdin fed in random chunks (empty, shorter and longer than the 8096-byte block, binary; also long runs of one byte and a constant message written again and again, one per write; also standard input as a regular file of 64 KiB to 1 MiB; the event log switched on in half of the runs), stdout and the day's record file compared with the " +
 		"input after the process has exited; also a build with a 40 ms delay before the recorder's write (overlay), which makes a missing wait deterministic; non-trivial = non-empty input; distinct = distinct input"
 	tmp, err := os.MkdirTemp("", "verif-c16")
 	if err != nil {
@@ -236,7 +238,8 @@ func runC16(res *result) error {
 		dir := filepath.Join(tmp, fmt.Sprintf("run%d", i))
 		os.MkdirAll(dir, 0o755)
 		cfg := filepath.Join(dir, "cfg.json")
-		os.WriteFile(cfg, []byte(fmt.Sprintf(`{"log_events": false, "message_log_directory": %q}`, dir)), 0o644)
+		logEvents := i%2 == 0 && i >= len(sizes)
+		os.WriteFile(cfg, []byte(fmt.Sprintf(`{"log_events": %v, "message_log_directory": %q, "event_log_directory": %q}`, logEvents, dir, dir)), 0o644)
 		cmd := exec.Command(bins[variant], "-c", cfg)
 		cmd.Dir = dir
 		var stdin io.WriteCloser
@@ -307,8 +310,11 @@ func runC16(res *result) error {
 		if fail != "" {
 			outcome = "fail"
 		}
-		op := fmt.Sprintf("rtcmlogger variant=%s content=%s size=%d seed=%d run=%d", variant, content, size, *seed, i)
+		op := fmt.Sprintf("rtcmlogger variant=%s content=%s events=%v size=%d seed=%d run=%d", variant, content, logEvents, size, *seed, i)
 		class := variant
+		if logEvents {
+			class += "/event-log-on"
+		}
 		if content != "random" {
 			class += "/" + content
 		}
@@ -319,6 +325,16 @@ func runC16(res *result) error {
 }
 
 // ---- C19 ---------------------------------------------------------------------------------
+
+// freePorts returns two DIFFERENT free ports (both listeners are open at the same time before
+// they are closed: two calls of freePort in a row can return the same number).
+func freePorts() (int, int) {
+	l1, _ := net.Listen("tcp", "127.0.0.1:0")
+	l2, _ := net.Listen("tcp", "127.0.0.1:0")
+	defer l1.Close()
+	defer l2.Close()
+	return l1.Addr().(*net.TCPAddr).Port, l2.Addr().(*net.TCPAddr).Port
+}
 
 func freePort() int {
 	l, _ := net.Listen("tcp", "127.0.0.1:0")
@@ -387,7 +403,7 @@ func traffic(r *rand.Rand, kind string, count int) []byte {
 
 func runC19(res *result) error {
 	res.Rule = "the real proxy binary built from /repo between a test client and a test upstream server on TCP loopback: client-to-server and server-to-client byte streams (valid frames, CRC-valid frames with " +
-		"malformed content, random bytes, payloads and non-RTCM data containing '<' and '>') in random chunkings, as single bursts of several read buffers, and as single bursts of exactly 1..3 times 1024/2048/4096/8192 bytes followed by silence; every fourth run the server half-closes after its answer and the client sends afterwards; one run in eight has a client that only listens while the server pauses for 12 s (thorough 65 s) in mid-answer; both directions compared byte for byte; in verbose runs the message log " +
+		"malformed content, random bytes, payloads and non-RTCM data containing '<' and '>') in random chunkings, as single bursts of several read buffers, and as single bursts of exactly 1..3 times 1024/2048/4096/8192 bytes followed by silence; every fourth run the server half-closes after its answer and the client sends afterwards; one run in eight has a server that stops reading for 3 s while 6 MiB are on their way (the proxy's writes block); one run in eight has a client that only listens while the server pauses for 12 s (thorough 65 s) in mid-answer; both directions compared byte for byte; in verbose runs the message log " +
 		"(raw bytes of every message the parser produced, i.e. what the report lists) must be a prefix of the relayed client stream and, for streams of valid frames, all of it; /status/report fetched and the number of '<'/'>' in the body " +
 		"compared with the number the page has when the traffic contains no markup at all; non-trivial = at least 100 bytes relayed; distinct = distinct traffic"
 	tmp, err := os.MkdirTemp("", "verif-c19")
@@ -409,9 +425,19 @@ func runC19(res *result) error {
 			kind = "valid-frames" // the first run doubles as the markup baseline
 		}
 		fail := ""
-		up, _ := net.Listen("tcp", "127.0.0.1:0")
+		slowServer := i%8 == 1
+		var up net.Listener
+		if slowServer {
+			// a small receive buffer on the server's side, so that the proxy's writes really block
+			lc := net.ListenConfig{Control: func(network, address string, c syscall.RawConn) error {
+				return c.Control(func(fd uintptr) { syscall.SetsockoptInt(int(fd), syscall.SOL_SOCKET, syscall.SO_RCVBUF, 4096) })
+			}}
+			up, _ = lc.Listen(context.Background(), "tcp", "127.0.0.1:0")
+		} else {
+			up, _ = net.Listen("tcp", "127.0.0.1:0")
+		}
 		upPort := up.Addr().(*net.TCPAddr).Port
-		proxyPort, ctlPort := freePort(), freePort()
+		proxyPort, ctlPort := freePorts()
 		dir := filepath.Join(tmp, fmt.Sprintf("run%d", i))
 		os.MkdirAll(dir, 0o755)
 		cfg := filepath.Join(dir, "proxy.json")
@@ -424,6 +450,10 @@ func runC19(res *result) error {
 			args = append(args, "-q")
 		}
 		burst := r.Intn(3) == 0 // the client writes everything in one call (several read buffers in flight)
+		if slowServer {
+			logged = false
+			args = []string{"-c", cfg, "-q"}
+		}
 		cmd := exec.Command(bin, args...)
 		cmd.Dir = dir
 		var perr bytes.Buffer
@@ -444,6 +474,13 @@ func runC19(res *result) error {
 			burst, count = false, 1
 		}
 		c2s := traffic(r, kind, count)
+		// one run in eight: a server that stops reading for a while, with so much data on its way that
+		// the proxy's writes block (back pressure) while the client keeps sending
+		if slowServer {
+			burst = true
+			c2s = make([]byte, 6<<20)
+			r.Read(c2s)
+		}
 		// every fourth run: one burst whose length is an exact multiple of a plausible read-buffer
 		// size, after which the client stays quiet (it waits for the server's answer) - the bytes
 		// must still arrive upstream
@@ -475,6 +512,12 @@ func runC19(res *result) error {
 				defer func() { sent <- true }()
 				rest := s2c
 				paused := false
+				if listening && len(s2c) >= 2 {
+					// first half, a long silence, second half
+					conn.Write(s2c[:len(s2c)/2])
+					time.Sleep(idle)
+					rest, paused = s2c[len(s2c)/2:], true
+				}
 				for len(rest) > 0 {
 					k := 1 + r.Intn(500)
 					if k > len(rest) {
@@ -494,7 +537,13 @@ func runC19(res *result) error {
 			}()
 			var buf []byte
 			tmpb := make([]byte, 4096)
+			if slowServer {
+				time.Sleep(3000 * time.Millisecond)
+			}
 			conn.SetReadDeadline(time.Now().Add(15 * time.Second))
+			if slowServer {
+				conn.SetReadDeadline(time.Now().Add(40 * time.Second))
+			}
 			for len(buf) < len(c2s) {
 				k, err := conn.Read(tmpb)
 				buf = append(buf, tmpb[:k]...)
@@ -611,7 +660,16 @@ func runC19(res *result) error {
 			}
 			if fail == "" {
 				time.Sleep(150 * time.Millisecond) // let the parser leg fill the queue
-				resp, err := http.Get(fmt.Sprintf("http://127.0.0.1:%d/status/report", ctlPort))
+				// (a client with a time limit, and three attempts: the harness itself must never wait for ever)
+				var resp *http.Response
+				var err error
+				for attempt := 0; attempt < 3; attempt++ {
+					client := &http.Client{Timeout: 10 * time.Second}
+					resp, err = client.Get(fmt.Sprintf("http://127.0.0.1:%d/status/report", ctlPort))
+					if err == nil {
+						break
+					}
+				}
 				if err != nil {
 					fail = "status report not available: " + err.Error()
 				} else {
@@ -651,6 +709,9 @@ func runC19(res *result) error {
 		}
 		if listening {
 			kind += fmt.Sprintf("/listening-client-%v", idle)
+		}
+		if slowServer {
+			kind = "random-bytes/slow-server-6MiB"
 		}
 		if logged {
 			kind += "/logged"
